@@ -213,6 +213,9 @@ func c09Program(r *RNG) GoProg {
 	sb.WriteString("func recf(n int, x float64, s []float64, b byte) float64 {\n\ty := x / 2\n\tt := append(s, 1)\n\tz := t[0] / 2\n\tw := b + 200\n\tif n == 0 {\n\t\treturn y + z + float64(w)\n\t}\n\treturn y + z + float64(w) + recf(n-1, 3, nil, 100)\n}\n\n")
 	sb.WriteString("func rec(n int) int {\n\tif n == 0 {\n\t\treturn 0\n\t}\n\treturn 1 + rec(n-1)\n}\n\n")
 	sb.WriteString("func apply(f func(int) int, v int) int {\n\treturn f(v) + 1\n}\n\nfunc twice(v int) int {\n\treturn v * 2\n}\n\nfunc pair(a int, b int) (int, int) {\n\treturn b, a\n}\n\nfunc pass(a int, b int) (int, int) {\n\treturn pair(a, b)\n}\n\n")
+	// a function literal with another result count than its function, before a tail call: the call asks for the
+	// function's own count
+	sb.WriteString("func viaLit(v int) (int, int) {\n\tcb := func(k int) {\n\t\tbumps += k\n\t}\n\tcb(1)\n\treturn pair(v, v+1)\n}\n\nfunc viaLit2(v int) int {\n\tsplit := func(k int) (int, int) {\n\t\treturn k, k + 1\n\t}\n\ta, b := split(v)\n\treturn twice(a + b)\n}\n\nfunc (t *T) ViaLit3(v int) (string, int) {\n\treturn t.M2(apply(func(k int) int {\n\t\treturn k + 1\n\t}, v), \"z\")\n}\n\n")
 	nf := 2 + r.Intn(3)
 	type sig struct {
 		ps, rs   []string
@@ -401,6 +404,7 @@ func c09Program(r *RNG) GoProg {
 	sb.WriteString("var ta, tb int = pass(3, 4)\nvar ua, ub = pair(5, 6)\nvar va, _ int = pair(7, 8)\nprintln(\"decl\", ta, tb, ua, ub, va, gta, gtb, gua)\n")
 	fmt.Fprintf(&sb, "ys := []int{%d, %d}\nprintln(\"tail\", tail1(ys), tail1(nil), tail0(6))\nq1, q2 := tail2(ys)\nprintln(\"tail2\", q1, q2, t.TailM(ys))\n", r.Intn(50), r.Intn(50))
 	sb.WriteString("println(\"nested\", 10+twice(3)*2, sum(twice(1), twice(2)))\n")
+	sb.WriteString("vl1, vl2 := viaLit(3)\nvs, vn := t.ViaLit3(5)\nprintln(\"lit\", vl1, vl2, viaLit2(4), vs, vn)\n")
 	sb.WriteString("}\n")
 	return GoProg{Src: sb.String()}
 }
